@@ -160,4 +160,15 @@ def c16(tier, seed):
                 "paths": "plain drop, into_inner, into_child, get_mut, into_iter (partially consumed), extend, try_new accept and reject (duplicate references around an owned member)"})
 
 
-PROPS = {"C13": c13, "C16": c16, "C02": c02, "C06": c06, "C08": c08, "C07": c07, "C10": c10, "C11": c11, "C12": c12, "C04": c04, "C05": c05, "C03": c03, "C09": c09}
+def c17(tier, seed):
+    from harness import props
+    text, names = props.gen_nonacq(tier)
+    return checks.run_mirsym_property(
+        "C17", tier, seed, {"h_nonacq.rs": text}, codes("M_BLOCKING_IN_TRY", "M_STATE_CHANGED", "M_BAD_RELEASE", "M_OTHER", "M_DUP_VERDICT", "M_HELD_AFTER_ERR", "M_SELF_WAIT"),
+        assumptions=sys_assumptions + [
+            "core::fmt's non-generic builders (Formatter::debug_struct/debug_tuple/..., DebugStruct::field, finish, write_str, pad, integer/pointer formatting) have no MIR and are summarised: every &dyn Debug member is formatted by calling its real Debug::fmt through the vtable, output is discarded; natively the same harness formats with write! into a discarding sink and the raw-operation traces are compared",
+            "holders: the environment (symbolic quiescent pre-state) or the calling thread itself through a live guard / a running scoped closure"],
+        bounds=BOUNDS)
+
+
+PROPS = {"C13": c13, "C17": c17, "C16": c16, "C02": c02, "C06": c06, "C08": c08, "C07": c07, "C10": c10, "C11": c11, "C12": c12, "C04": c04, "C05": c05, "C03": c03, "C09": c09}
